@@ -49,7 +49,7 @@ class Cfg:
     def __init__(self, naming="distinct", method_form=0.3, members=None, called_lambdas=True, odd_selectors=False,
                  containers=True, ifexp=True, keywords_in_called=True, first=True, lists=True, dict_attr=True,
                  comprehension=False, count_fn=True, first_on_seq=True, genexp=False,
-                 captures=False, helpers=False, record_ctor=False, free_scalar=False, first_of_packages=True, higher_order=False, kwonly_in_called=False, dict_method_keys=False, duplicate_keys=True, seq_of_packages=False, starred_literals=False, starred_calls=False):
+                 captures=False, helpers=False, record_ctor=False, free_scalar=False, first_of_packages=True, higher_order=False, kwonly_in_called=False, dict_method_keys=False, duplicate_keys=True, seq_of_packages=False, starred_literals=False, starred_calls=False, callable_fields=False):
         self.naming = naming
         self.method_form = method_form
         self.members = members or MEMBERS
@@ -76,6 +76,7 @@ class Cfg:
         self.seq_of_packages = seq_of_packages
         self.starred_literals = starred_literals
         self.starred_calls = starred_calls or starred_literals
+        self.callable_fields = callable_fields
         self.free_scalar = free_scalar
 
 
@@ -259,6 +260,12 @@ def _wrappers(cx: Ctx, env, ty, depth, inner_fn):
             idx = {f"({other},)": 1, "()": 0, f"({other}, {other})": 2}[seqlit]
             lit = f"(*{seqlit}, {inner})" if kind == "T" else f"[*{seqlit}, {inner}]"
             return f"{lit}[{idx}]"
+        if cfg.callable_fields and kind == "R" and cfg.dict_attr and cx.chance(2):
+            # a field that holds a function, read by attribute and called on the spot: `{'f_a': <lambda>, ..}.f_a(x)`
+            q_ = cx.fresh(env)
+            body = gen(cx, bind(env, q_, I), ty, depth - 1)
+            other = gen(cx, env, any_type(cx, env, 1), 0)
+            return f"{{'f_a': (lambda {q_}: {body}), 'f_b': {other}}}.f_a({gen(cx, env, I, 0)})"
         if cfg.starred_literals and kind == "R" and cx.chance(2):
             # a ** entry after the key may override it
             inner = gen(cx, env, ty, depth - 1)
